@@ -4,7 +4,8 @@ Decides (DESIGN §4 C08): R1 the publish decision table of `Strategy::update_rou
 equals (min ∧ grace ∧ found) ∨ max on all 16 rows (the 4 rows max ∧ ¬min are don't-care: impossible for min ≤ max), atoms identified by operand provenance; `exceeds` is
 `Some(start) ∧ end − start > dur`; the three state getters return the fields they are named after.
 R2 completion reason = TargetFound iff target_found(). R3 advance_round follows publish_trace on exactly the
-publishing traces and resets round_start to a fresh SystemTime::now(). R4 loop shape of Strategy::run.
+publishing traces and resets round_start to a fresh SystemTime::now(). R4 loop shape of Strategy::run. R5 recv_response performs at most one read of the network and has no loop, so the policy is
+re-evaluated after every read timeout at the latest.
 Not decided: the real-time bound (platform poll + send latency), the clock itself.
 """
 import re
@@ -166,3 +167,26 @@ def run(chk, tier):
                      key='R4|shape')
     if not nloops:
         chk.fail('R4', 'run:loop', fn_loc(fr), 'no trace of Strategy::run reaches update_round', key='R4|noloop')
+
+    # ---- R5: one bounded read per iteration --------------------------------------------------------------
+    # "never held open longer than max-round-duration plus one read timeout": between two evaluations of the policy the loop blocks in at most
+    # one Network::recv_probe call (which waits at most the read timeout), so recv_response may neither loop nor read twice
+    chk.rule('R5', 'recv_response performs at most one (bounded) read and has no loop, so update_round runs once per read timeout', floor=2)
+    from ..cfg import CFG
+    frr = prog.find(r'strategy::Strategy::recv_response$')
+    chk.fn_seen(frr['path'])
+    back = CFG(frr).back_edges()
+    if back:
+        chk.fail('R5', 'recv_response:no-loop', fn_loc(frr), 'Strategy::recv_response loops: while responses that are not accepted keep arriving the round policy '
+                 '(update_round) is not evaluated, so a round can be held open past its time limit', key='R5|recv_response|loop')
+    else:
+        chk.ok('R5', 'recv_response:no-loop', 'no back edge')
+    st = St()
+    engrr = Engine(prog, inline_depth=0, loop_visits=2)
+    outs = engrr.run(frr, [('sym', 'self'), engrr.sym_ref(st, 'network'), engrr.sym_ref(st, 'st')], st)
+    reads = [len(user_calls(o, r'::recv_probe$')) for o in outs]
+    if outs and max(reads) <= 1 and all(o.kind in ('return',) for o in outs):
+        chk.ok('R5', 'recv_response:one-read', '%d traces, at most one recv_probe each' % len(outs))
+    else:
+        chk.fail('R5', 'recv_response:one-read', fn_loc(frr), 'Strategy::recv_response reads the network %s times on one call (traces end %s): each read may block for the read timeout' % (
+            max(reads) if reads else '?', sorted({o.kind for o in outs})), key='R5|recv_response|reads')
